@@ -101,6 +101,20 @@ def corpus(ctx, rnd, quick):
     take("c16", c16.lines(ctx), n)
     take("c17", c17.lines(ctx), n)
     take("c18", [l for l in c18.gen_lines(ctx)] + c18.use_site_lines(ctx), n)
+    # plain sessions on a script of the pay-to-script-hash shape: the hand-over replaces the script by the stack top (a buffer of
+    # another size, possibly elsewhere), after which signature opcodes build the script code from the new script's start
+    import hashlib as _hl
+    def _h160(b): return _hl.new("ripemd160", _hl.sha256(b).digest()).digest()
+    pl = []
+    for n in (0, 5, 24, 28, 29, 35, 41, 56, 80, 300):
+        for tail in (bytes([0xac]), bytes([0xad, 0x51]), bytes([0x51, 0xae]), bytes([0xab, 0xac]), bytes([0xac, 0xab, 0x51])):
+            red = bytes([0x61]) * max(0, n - 34 - len(tail)) + R.push(b"\x02" + b"\x11" * 32) + tail
+            spk = bytes([0xa9, 0x14]) + _h160(red) + bytes([0x87])
+            for fl in (R.STD, R.STD & ~(1 << R.FLAG_BITS["CONST_SCRIPTCODE"]), 0):
+                for sig in (b"", bytes.fromhex("3006020101020101" "01")):
+                    pl.append(R.run_line(0, fl, spk, [sig, red]))
+                    pl.append(R.run_line(0, fl, spk, [b"", sig, red]))
+    out["p2sh-plain-sigops"] = pl
     # spends: valid ones and mutated ones, every output type
     sp = []
     for rep in range(30 if quick else 600):
@@ -163,6 +177,8 @@ def run(ctx):
                                       "why": "the sanitizer build crashed / reported a memory or undefined-behaviour error / let an exception escape"})
         ctx.count("asan:" + name, len(allv))
         total += len(allv)
+    import hashlib as _hl
+    def _h160(b): return _hl.new("ripemd160", _hl.sha256(b).digest()).digest()
     # ---- the three binaries (sanitizer build) on command lines
     jobs = []
     def job(tool, argv, stdin_mode="pipe", stdout_mode="pipe", inp=""):
@@ -198,6 +214,13 @@ def run(ctx):
         job("btcc", [], inp="7" * (n + 1) + "\n")
     job("btcdeb", ["-f-CONST_SCRIPTCODE", "[OP_CHECKSIG]"] + ["0x01"] * 1001, "tty", "tty", "exec OP_CODESEPARATOR\nstep\nstep\n\x04")
     job("btcdeb", ["-f-CONST_SCRIPTCODE", "[OP_1 OP_CHECKSIG]"] + ["0x01"] * 1000, "tty", "tty", "exec OP_CODESEPARATOR OP_1\nstep\nstep\n\x04")
+    # the same from the command line, and with an exec'd OP_CODESEPARATOR before the hand-over
+    for n in (35, 41, 56):
+        red = bytes([0x61]) * (n - 35) + R.push(b"\x02" + b"\x11" * 32) + bytes([0xac])
+        spk = bytes([0xa9, 0x14]) + _h160(red) + bytes([0x87])
+        for extra in ([], ["-f-CONST_SCRIPTCODE"]):
+            job("btcdeb", extra + ["0x" + spk.hex(), "0x3006020101020101" "01", "0x" + red.hex()], "tty", "pipe", "")
+            job("btcdeb", extra + ["0x" + spk.hex(), "0x3006020101020101" "01", "0x" + red.hex()], "tty", "tty", "step\nstep\nstep\nexec OP_CODESEPARATOR\n" + "step\n" * (n - 30) + "\x04")
     # interactive command sequences
     cmds = ["step", "rewind", "stack", "altstack", "vfexec", "print", "exec", "exec OP_1", "exec OP_CODESEPARATOR OP_CHECKSIG", "exec 0x", "exec [", "tf", "tf -h",
             "tf add 1 2", "tf sha256", "tf sha256 abc", "tf bech32-decode x", "tf base58chk-decode x", "tf addr-to-scriptpubkey x", "tf jacobi-symbol 0", "tf nosuch 1",
